@@ -236,3 +236,7 @@ def contracts(tier):
     periods = [4, 8] if tier == "quick" else [4, 5, 8, 16, 100]
     for p in periods:
         yield ("I2CInitiator", f"period{p}_stretch", make(p))
+    # caller-side: the tree's one user of the initiator (I2CRegisterInterface) raises strobes only while busy is low, which is
+    # the leaf contract's one `require`: contracts/w6_util_wrappers.py
+    from contracts.w6_util_wrappers import i2c_wrapper_contracts
+    yield from i2c_wrapper_contracts(tier)
